@@ -311,10 +311,12 @@ impl Decoder {
                     .ok_or_else(|| other!("missing crypt filter entry {:?}", dict.default_crypt_filter.as_ref()))?;
 
                 match default.method {
-                    CryptMethod::V2 | CryptMethod::AESV2 => (
+                    CryptMethod::V2 => (
                         default.length.map(|n| 8 * n).unwrap_or(dict.bits),
                         default.method,
                     ),
+                    // the key of AESV2 has 128 bits, whatever /Length says or does not say
+                    CryptMethod::AESV2 => (128, default.method),
                     CryptMethod::AESV3 if dict.v == 5 => (
                         default.length.map(|n| 8 * n).unwrap_or(dict.bits),
                         default.method,
